@@ -235,7 +235,8 @@ def run(ctx):
     steps = [{"op": "add", "c": t, "prepend": False} for t in toks4] + [{"op": "add", "c": t, "prepend": True} for t in toks4] + \
             [{"op": "remove", "c": t} for t in toks4]
     idx = 0
-    for L in range(1, 5):
+    maxL = 5 if ctx.thorough else 4
+    for L in range(1, maxL + 1):
         for combo in itertools.product(range(len(steps)), repeat=L):
             idx += 1
             if not ctx.mine(idx):
@@ -243,7 +244,7 @@ def run(ctx):
             h = {"init": None, "ops": [steps[i] for i in combo]}
             ctx.guard(run_history, ctx, h, witness={"history": h})
             ctx.case(h, nontrivial=nontrivial(h))
-    ctx.exhaustive["histories_len_le_4_over_4_tokens_x_3_ops"] = True
+    ctx.exhaustive["histories_len_le_%d_over_4_tokens_x_3_ops" % maxL] = True
     ex = {"init": "  foo   foobar ", "ops": [{"op": "remove", "c": "foo"}, {"op": "add", "c": " fo ", "prepend": True}]}
     t = ht.div(class_=ex["init"])
     t.remove_class("foo").add_class(" fo ", prepend=True)
